@@ -117,9 +117,9 @@ func runC15(c *Ctx) error {
 		var desc []string
 		crossed := false
 		type trip struct {
-			e    int
-			p    bool
-			s    uint32
+			e int
+			p bool
+			s uint32
 		}
 		seen := map[trip]bool{}
 		prioWrapped := false
@@ -226,10 +226,10 @@ func runC15(c *Ctx) error {
 		}
 		var frames []sent
 		type trip struct {
-			who   string
-			key   string
-			p     bool
-			s     uint32
+			who string
+			key string
+			p   bool
+			s   uint32
 		}
 		seen := map[trip]bool{}
 		record := func(who string, key []byte, p bool, s uint32, where string) {
